@@ -133,6 +133,9 @@ def build_chunk(case):
         return out
     if case["values"] == "fingerprint":
         return fingerprint_chunk(case, dtype, rng)
+    if case.get("structure"):
+        return ds.regular_labels((C, Z, Y, X), dtype, rng, case["structure"],
+                                 block=case["block"])
     prev = None
     for c in range(C):
         for z0 in range(0, Z, bz):
@@ -197,6 +200,11 @@ def cases(draw):
         # scale's chunk size is this chunk's size; "info_border": this chunk
         # is a border chunk of a scale with larger chunks)
         "via": draw(st.sampled_from(["direct", "info", "info_border"])),
+        # regular label structure (labels depending on one coordinate only,
+        # periodic in the flat voxel index, one tile repeated): many blocks,
+        # also border blocks of different shapes, hold identical sequences
+        "structure": draw(st.sampled_from([None, None, None, "one_axis",
+                                           "flat_periodic", "tiled"])),
     }
 
 
@@ -331,6 +339,7 @@ def run(ctx, n):
         classes.append("cubic" if len(set(case["block"])) == 1 else "noncubic")
         classes.append(case["dtype"])
         classes.append("via_" + case["via"])
+        classes.append("structure_" + str(case.get("structure") or "random"))
         ctx.record(case, nt, classes)
     ctx.run_hypothesis(cases(), check, n)
 
